@@ -22,7 +22,8 @@ RULE = ("exhaustive part: every population of n<=3 single-objective individuals 
         "operator they apply to, independent of the seed): near-tie (values 1, 1+-2^-21, 1+-2^-50, 1+2^-52, 1-2^-53 / "
         "1+-2^-30 where the code adds and averages; exact bit patterns, the Rat model compares exactly), fit_attr=other "
         "(individuals carry a decoy `fitness` with another order and another total), the same object listed twice, "
-        "negative values; random part: n<=12, 1-4 objectives of mixed weight signs over values {0,1,2,(3)} (many ties), "
+        "negative values; large populations (n = 13..1025 around powers of two, heavy ties on the first objective, k "
+        "around n/4, n/2, n); random part: n<=12, 1-4 objectives of mixed weight signs over values {0,1,2,(3)} (many ties), "
         "k in 0..15, tournsize 1..5, parsimony size {1,1.4,2}, both orders, epsilon {0,1/2,2}, crowding distances incl. "
         "inf, tape recorded from the real random module calls (boundary draws 0, 1/2, prob forced in a quarter of the "
         "double/DCD cases; roulette draws j/1024 incl. 0 and 1023/1024, draws exactly on wheel boundaries, full sweeps "
@@ -301,20 +302,22 @@ def oracle(d, w, pop, res, idx, draws, tape_ok=True):
         have = {}
         for i in cm:
             have[i] = have.get(i, 0) + 1
-        for i in set(idx):
-            if idx.count(i) > have[i]:
-                return "an individual was returned more often than it occurs in the input"
+        if len(set(idx)) != len(idx):
+            for i in set(idx):
+                if idx.count(i) > have[i]:
+                    return "an individual was returned more often than it occurs in the input"
         keys = [wv[i] for i in idx]
         for a, b in zip(keys, keys[1:]):
             if (lex_lt(a, b) if op == "best" else lex_lt(b, a)):
                 return "result is not in fitness order"
-        omitted = []
-        for i in set(cm):
-            omitted += [wv[i]] * (have[i] - idx.count(i))
-        for o in omitted:
-            for kk in keys:
-                if (lex_lt(kk, o) if op == "best" else lex_lt(o, kk)):
-                    return "an omitted individual is more extreme than a kept one"
+        cnt = {}
+        for i in idx:
+            cnt[i] = cnt.get(i, 0) + 1
+        if keys:
+            edge = keys[-1]                     # the least extreme kept one (the list is in fitness order)
+            for i in set(cm):
+                if have[i] > cnt.get(i, 0) and (lex_lt(edge, wv[i]) if op == "best" else lex_lt(wv[i], edge)):
+                    return "an omitted individual (%d) is more extreme than a kept one" % i
         return None
     if op == "random":
         if not tape_ok or kinds(draws) != ["choice"] * k:
@@ -519,7 +522,7 @@ def tag_for(d, pop, draws, res):
     elif op == "sus" and draws and draws[0][0] == "uniform" and Fr(draws[0][3]) == 0:
         t += "/r=0"
     for key, lab in (("sweep", "sweep"), ("rforce", "boundary-draws"), ("exh", "exhaustive"), ("near", "near-tie"),
-                     ("attr", "fit_attr"), ("alias", "same-object-twice"), ("neg", "negative")):
+                     ("attr", "fit_attr"), ("alias", "same-object-twice"), ("neg", "negative"), ("large", "large-n")):
         if d.get(key):
             t += "/" + lab
     if d["k"] == 0:
@@ -635,7 +638,15 @@ for _v in NEAR_CMP + NEAR_ARITH + NEAR_WHEEL:
     assert Fr(float(Fr(_v))) == Fr(_v)
 
 
+# population sizes around the places where an implementation may switch algorithm
+LARGE_N = [63, 64, 65, 127, 128, 129, 255, 256, 257, 300, 511, 512, 513, 1000, 1024, 1025]
+
+
 def rand_pop(rng, n=None, nobj=None, flavour=None, arith=False):
+    if flavour == "large" and n is None:
+        n = rng.choice(LARGE_N + [rng.randint(13, 200)])
+    if flavour == "large" and nobj is None:
+        nobj = rng.choice([1, 2, 2, 2, 3])
     n = n if n is not None else rng.choice([1, 2, 2, 3, 3, 4, 5, 6, 7, 8, 10, 12])
     nobj = nobj if nobj is not None else rng.choice([1, 1, 2, 2, 3, 4])
     w = [rng.choice(WEIGHTS) for _ in range(nobj)]
@@ -648,14 +659,19 @@ def rand_pop(rng, n=None, nobj=None, flavour=None, arith=False):
             vals.append(list(rng.choice(vals)))           # exact duplicate of another individual
         elif flavour == "near":
             vals.append([rng.choice(NEAR_ARITH if arith else NEAR_CMP) for _ in range(nobj)])
+        elif flavour == "large":
+            # heavy ties on the first objective, later objectives decide
+            vals.append([str(rng.randint(0, 5))] + [str(rng.randint(0, rng.choice([3, 999]))) for _ in range(nobj - 1)])
         else:
             vals.append([sfr(Fr(rng.randint(lo * (2 if half else 1), hi * (2 if half else 1)), 2 if half else 1))
                          for _ in range(nobj)])
     return w, vals
 
 
-def rand_wheel(rng, n=None, mult=1, near=False):
+def rand_wheel(rng, n=None, mult=1, near=False, large=False):
     """strictly positive maximised first objective (integers), optionally a second objective"""
+    if large and n is None:
+        n = rng.choice(LARGE_N + [rng.randint(13, 200)])
     n = n if n is not None else rng.choice([1, 2, 2, 3, 4, 5, 6, 8, 12])
     two = rng.random() < 0.3
     w = [rng.choice(["1", "2", "1/2"])] + ([rng.choice(["1", "-1"])] if two else [])
@@ -717,16 +733,20 @@ def make_case(rng, op, flavour=None):
     k = rng.randint(0, 15)
     seed = rng.randrange(1 << 30)
     near = flavour == "near"
-    pf = flavour if flavour in ("near", "neg") else None
+    large = flavour == "large"
+    pf = flavour if flavour in ("near", "neg", "large") else None
     d = None
     if op in ("best", "worst", "random"):
         w, vals = rand_pop(rng, flavour=pf)
+        if large and op != "random":
+            n = len(vals)
+            k = rng.choice([1, 2, 3, 7, n // 8, n // 4 - 1, n // 4, n // 4 + 1, n // 2, n - 1, n, n + 3])
         d = {"op": op, "w": w, "vals": vals, "k": k, "seed": seed}
     elif op == "tourn":
         w, vals = rand_pop(rng, flavour=pf)
         d = {"op": op, "w": w, "vals": vals, "k": k, "ts": rng.randint(1, 5), "seed": seed}
     elif op == "roulette":
-        w, vals = rand_wheel(rng, near=near)
+        w, vals = rand_wheel(rng, near=near, large=large)
         js = [rng.choice([0, 1023, rng.randrange(1024), rng.randrange(1024)]) for _ in range(k)]
         d = {"op": op, "w": w, "vals": vals, "k": k, "j": js}
         if rng.random() < 0.12:
@@ -752,7 +772,7 @@ def make_case(rng, op, flavour=None):
             m = odd_part(k) if k else 1
             if rng.random() < 0.3 and k:
                 m = k
-            w, vals = rand_wheel(rng, mult=m)
+            w, vals = rand_wheel(rng, mult=m, large=large)
             # r = j/1024; r = 0 is the F13 boundary draw (model-vs-implementation only)
             j = rng.choice([rng.randrange(1, 1024), rng.randrange(1, 1024), 512, 1, 1023,
                             0 if rng.random() < 0.5 else 256])
@@ -779,14 +799,14 @@ def make_case(rng, op, flavour=None):
         if op == "epslex":
             d["eps"] = rng.choice(EPS)
     elif op == "dcd":
-        w, vals = rand_pop(rng, n=rng.choice([1, 3, 4, 4, 4, 5, 6, 7, 8, 8, 8, 9, 10, 12, 12, 12]),
+        w, vals = rand_pop(rng, n=None if large else rng.choice([1, 3, 4, 4, 4, 5, 6, 7, 8, 8, 8, 9, 10, 12, 12, 12]),
                            nobj=rng.choice([1, 2, 2, 3]), flavour=pf)
         n = len(vals)
         cd = [rng.choice(["0", "0", "1/2", "1", "5/2", "inf"] + ([NEAR_CMP[2], NEAR_CMP[4]] if near else []))
               for _ in range(n)]
         r = rng.random()
         if r < 0.8:
-            ks = [x for x in (4, 8, 12) if x <= n] or [0]
+            ks = [x for x in ((4, 8, 12, n // 4 * 4, n // 8 * 4) if large else (4, 8, 12)) if x <= n] or [0]
             kk = 0 if rng.random() < 0.08 else rng.choice(ks)
         elif r < 0.9:
             kk = rng.randint(0, n + 1)               # edge: any k (IndexError / ValueError / longer list)
@@ -795,7 +815,7 @@ def make_case(rng, op, flavour=None):
         d = {"op": op, "w": w, "vals": vals, "k": kk, "cd": cd, "seed": seed}
         if rng.random() < 0.25:
             d["rforce"] = [rng.choice(["0", "1/2", "3/4", None]) for _ in range(3)]
-    if flavour in ("near", "neg"):
+    if flavour in ("near", "neg", "large"):
         d[flavour] = 1
     if flavour == "attr":
         d["attr"] = "other"
@@ -825,6 +845,18 @@ FLAVOURS = [
 ]
 
 
+LARGE_OPS = ["best", "worst", "best", "worst", "tourn", "dtourn", "roulette", "sus", "lex", "epslex", "autolex", "dcd",
+             "random"]
+
+
+def gen_large(tier, rng, mult):
+    """populations far beyond the sizes of the other streams (13..1025, around powers of two), heavy ties
+    on the first objective: an operator must not change behaviour with the population size"""
+    total = (6000 if tier == "thorough" else 390) * mult
+    for it in range(total):
+        yield make_case(rng, LARGE_OPS[it % len(LARGE_OPS)], "large")
+
+
 def gen_flavoured(tier, rng, mult):
     total = (60000 if tier == "thorough" else 3600) * mult
     for it in range(total):
@@ -841,6 +873,8 @@ def gen_random(tier, rng, mult):
 def generate(tier, rng, mult):
     # which streams run never depends on the seed; every stream covers every operator it applies to
     for d in gen_exhaustive(tier):
+        yield d
+    for d in gen_large(tier, rng, mult):
         yield d
     for d in gen_flavoured(tier, rng, mult):
         yield d
